@@ -309,7 +309,7 @@ func TestC02(t *testing.T) {
 	enum(nil)
 	rec.Exhaustive("every ordered choice of <= 3 rules from the five kinds x {exit in rule j | next in pattern rule j | none} x 3 fixed configurations")
 
-	check(rec, "schedule-random", scale(20000, 400000), func(rt *rapid.T) {
+	check(rec, "schedule-random", scale(20000, 10000000), func(rt *rapid.T) {
 		c, labels := genC02(rt)
 		var ls []string
 		for l := range labels {
